@@ -928,6 +928,10 @@ def failing_items():
     out.append(("while-cond-type", block([assign("ga", I(3)), wh(I(1), I(2))]), [assign("ga", I(3))]))
     out.append(("parse-lexer", {"perr": True, "src": "ga = 1 $ 2"}, []))
     out.append(("parse-parser", {"perr": True, "src": "ga = 1 +"}, []))
+    # characters that are not part of the language, from every range (ASCII, Latin-1 supplement, two-, three- and four-byte characters), at the
+    # start of a token, after an operator, glued to a name
+    for k, ch in enumerate(["\u00fc", "\u00a7", "\u00b0", "\u00a0", "\u00ff", "\u0080", "\u03bb", "\u20ac", "\U0001f600", "@", "`", "\u00e9"]):
+        out.append(("parse-foreign-char-%d" % k, {"perr": True, "src": ["ga = 1 + %s", "%s = 2", "ga = x%s + 1", "write(%s)"][k % 4] % ch}, []))
     # errors on a later line of a statement that is still open (the remaining lines are harmless on their own: a name, a closer)
     out.append(("parse-lexer-in-open-block", {"perr": True, "src": "gf = (x) -> {\n  y = x_1 + 1\n  y\n}"}, []))
     out.append(("parse-lexer-in-open-array", {"perr": True, "src": "ga = [1,\n  2 ? 3,\n  4]"}, []))
@@ -1109,6 +1113,24 @@ def c09_families(tier, seed, ids=None):
            ("loops with bodies ending in each form, n and 2n iterations", pairs, ("value", "residue")),
            ("early return from nested loops", early, ("value", "residue")),
            ("sessions of 50 statements", long_, ("value", "residue"))]
+    # statements that fail inside an iterator context (the argument check of a built-in generator, a division inside a generator body, a
+    # generator of a generator), with 0 to 2 call frames around the loop: the machine is clean after the failing statement and after the ones that follow
+    fe = []
+    gdiv = assign("gdiv", fn(["n"], block([y(I(1)), y(bin_("/", I(1), N("n")))])))
+    gwrap = assign("gwrap", fn(["n"], fr(["v"], [call("gdiv", N("n"))], y(N("v")))))
+    loops = {"fromto with a string bound": fr(["i"], [call("fromto", I(0), St("x"))], assign("t", N("i"))), "elems of a number": fr(["i"], [call("elems", I(5))], assign("t", N("i"))),
+             "division in a generator": fr(["i"], [call("gdiv", I(0))], assign("t", N("i"))), "generator of a generator": fr(["i"], [call("gwrap", I(0))], assign("t", N("i"))),
+             "second of two iterators": fr(["i", "j"], [call("fromto", I(0), I(3)), call("gdiv", I(0))], assign("t", N("j")))}
+    for lname, loop in loops.items():
+        for depth in (0, 1, 2):
+            if depth == 0:
+                fail = [loop]
+            elif depth == 1:
+                fail = [assign("show", fn(["n"], block([assign("t", I(0)), loop, N("t")]))), call("show", I(1))]
+            else:
+                fail = [assign("show", fn(["n"], block([assign("t", I(0)), loop, N("t")]))), assign("outer", fn(["n"], block([assign("u", call("show", N("n"))), N("u")]))), call("outer", I(1))]
+            fe.append(mk(ids, [IDF, gdiv, gwrap] + fail + [I(1), ret(I(0)), fr(["q"], [call("fromto", I(0), I(2))], N("q"))] + fail[-1:] + fail[-1:] + [I(2), ret(I(3))], {"fails-in-iterator": lname, "depth": depth}))
+    out.append(("statements that fail inside an iterator context, then ordinary statements", fe, ("value", "residue")))
     return out, pairs
 
 
@@ -1262,10 +1284,21 @@ def c10_families(tier, seed, ids=None):
                        assign("run", fn(["n"], block([assign("acc", lst([])), fr(["i"], [call("fromto", I(0), N("n"))], assign("acc", bin_("+", bin_("+", N("acc"), lst([N("i")])), lst([bin_("+", bin_("*", N("i"), I(10)), bin_("+", N("i"), I(1)))])))), N("acc")]))),
                        call("run", I(3)), bin_("+", bin_("+", N("s"), call("toa", N("x"))), call("toa", lst([e]))), probe]
         al.append(mk(ids, items, {"ops": ["literal", "chain"], "element": en}))
+    # a range taken directly from an element, from the result of a call, from a closure's captured array, from a literal inside a function:
+    # the value it was taken from is what it was
+    rg = []
+    pre2 = [IDF, assign("m", lst([lst([I(1), I(2), I(3)]), lst([I(4), I(5), I(6)])])), assign("a", lst([I(1), I(2), I(3), I(4)])), assign("s", St("abcdef")),
+            assign("mkg", fn(["c"], fn([], N("c")))), assign("g", call("mkg", lst([I(7), I(8), I(9)]))), assign("lit", fn(["n"], ix2(ix1(lst([lst([I(1), I(2), I(3)]), I(0)]), I(0)), I(0), N("n"))))]
+    takes = {"element": (ix2(ix1(N("m"), I(0)), I(0), I(2)), N("m")), "call result": (ix2(call("id", N("a")), I(1), I(3)), N("a")), "closure result": (ix2(call("g"), I(0), I(1)), call("g")),
+             "element of element": (ix2(ix1(ix1(lst([N("m")]), I(0)), I(1)), I(1), I(2)), N("m")), "string element": (ix2(ix1(lst([N("s")]), I(0)), I(2), I(4)), N("s")),
+             "range of a range": (ix2(ix2(N("a"), I(0), I(3)), I(1), I(2)), N("a")), "concatenation": (ix2(bin_("+", N("a"), N("a")), I(2), I(6)), N("a"))}
+    for tn, (take, orig) in takes.items():
+        rg.append(mk(ids, pre2 + [orig, assign("r", take), orig, N("r"), assign("rr", take), orig, bin_("==", N("r"), N("rr")), call("lit", I(1)), call("lit", I(3)), call("lit", I(2)), N("m"), N("a"), N("s"), call("g")], {"ops": ["range", "of"], "taken-from": tn}))
     return [("operation histories over values that share structure", ss, ("value",)), ("a grown value extended twice", fk, ("value",)),
             ("a value captured by a closure that left its generator, across later loops of the same statement", cg, ("value",)),
             ("values returned by read() while more input is read", rd, ("value",)),
-            ("array literals with computed elements as operands of a chain", al, ("value",))]
+            ("array literals with computed elements as operands of a chain", al, ("value",)),
+            ("ranges taken directly from elements, call results and captured arrays", rg, ("value",))]
 
 
 def c10_nontrivial(v):
@@ -1896,11 +1929,32 @@ def c11_families(tier, seed, ids=None):
                 incs.append(mk(ids, items, {"increment": sname, "holds": hname, "side": side}))
     if tier == "quick":
         incs = [x for x in incs if x["meta"]["increment"] in ("int-one", "float-one") or shash((x["meta"]["increment"], x["meta"]["holds"], seed)) % 3 == 0]
+    # indexing and slicing where the indexed value and the indices are all computed in place (operator results, calls, elements): every split
+    # point of a string and of a nested array, lengths and concatenation laws
+    cs = []
+    pre3 = [IDF, assign("a", St("ap")), assign("b", St("ple")), assign("p", lst([I(1), lst([I(2)])])), assign("q", lst([St("x"), I(3), I(4)])), assign("m", lst([lst([I(1), I(2), I(3)]), lst([I(4), I(5), I(6)])])),
+            assign("one", I(1)), assign("zero", I(0))]
+    for strs in (True, False):
+        X = bin_("+", N("a"), N("b")) if strs else bin_("+", N("p"), N("q"))
+        n = 5
+        items = list(pre3)
+        for i in range(0, n + 1):
+            for j in range(i, n + 1):
+                if (i + j) % 2 == 0 or i == 0 or j == n:
+                    items.append(ix2(X, bin_("+", I(i), N("zero")), I(j)))
+                    items.append(bin_("==", un("#", ix2(X, bin_("+", N("zero"), I(i)), bin_("-", I(j + 1), N("one")))), I(j - i)))
+            items.append(bin_("==", bin_("+", ix2(X, I(0), bin_("+", I(i), N("zero"))), ix2(X, bin_("+", I(i), N("zero")), I(n))), X))
+            if i < n:
+                items.append(ix1(X, bin_("+", I(i), N("zero"))))
+        items += [ix2(ix1(N("m"), bin_("-", N("one"), N("zero"))), bin_("-", I(2), N("one")), bin_("+", N("one"), I(2))), ix2(call("id", X), un("#", lst([I(0)])), I(3)), ix1(call("id", X), un("#", lst([I(0)]))),
+                  ix2(X, bin_("+", I(9), N("zero")), I(10)), ix2(X, bin_("-", N("zero"), N("one")), I(2)), ix1(X, bin_("+", I(5), N("zero")))]
+        cs.append(mk(ids, items, {"computed-slices": "string" if strs else "array"}))
     return [("binary operators over special values as the compiler builds them: bare, negated, via globals, via parameters", ss, ("value",)),
             ("unary operators, nested", us, ("value",)), ("index and slice bounds over values however produced", ix, ("value",)),
             ("operators on the results of two extensions of one grown value", fo, ("value",)),
             ("operators whose operands are operator expressions, every grouping and nesting position", gr, ("value",)),
-            ("increment forms and their neighbours over every kind of value and variable", incs, ("value",))]
+            ("increment forms and their neighbours over every kind of value and variable", incs, ("value",)),
+            ("indexing and slicing with the value and the indices computed in place", cs, ("value",))]
 
 
 c11_rule = ("17 binary operators x 18x18 operands (ints, exact floats, signed zero, NaN, +-Inf, booleans, strings, arrays (one holding NaN), nil, a function) each written bare, "
